@@ -237,6 +237,35 @@ pub fn run() -> i32 {
             }
         }
     }
+    // cost parameters that are not round: memory limits with a sub-KiB residue, of every residue
+    // of the KiB count mod 4, and pass counts 1..=4 (Argon2id; libsodium floors to whole KiB)
+    for mem in [8192usize, 8193, 8704, 9215, 9216, 10000, 10240, 11264, 12 * 1024 + 1, 16383, 16384, 65536 + 513] {
+        for ops in [1u64, 2, 3, 4] {
+            let pw = b"residue".to_vec();
+            let salt = kval(seed ^ 0x44, 2, 16);
+            let (_, want_sk, _) = sodium::argon2_raw(ops as u32, (mem / 1024) as u32, &pw, &salt, 32, 2, false);
+            let want_pk = sodium::scalarmult_base(want_sk.as_slice().try_into().unwrap());
+            let r = guarded(AssertUnwindSafe(|| {
+                let cfg = Config::interactive().with_opslimit(ops).with_memlimit(mem);
+                let kp: KeyPair<SB<32>, SB<32>> = PwHash::<Vec<u8>, Vec<u8>>::derive_keypair(&pw, salt.clone(), cfg).unwrap();
+                kp.secret_key.as_slice() == &want_sk[..] && kp.public_key.as_slice() == &want_pk[..]
+            }));
+            let ok = r == Ok(true);
+            st.eval(&("pw-kp-cost", mem, ops), true, if ok { "derive_keypair==libsodium" } else { "derive_keypair-differs" });
+            if !ok {
+                fail(&mut st, "derive_keypair", "differs/cost", format!("PwHash::derive_keypair(memlimit {}, opslimit {}) differs from crypto_pwhash -> base multiplication: {:?}", mem, ops, r), json!({"kind": "pw"}));
+            }
+        }
+    }
+    // memory limits below the minimum must be refused here as everywhere else
+    for mem in [0usize, 1024, 7169, 8191] {
+        let r = guarded(AssertUnwindSafe(|| PwHash::<Vec<u8>, Vec<u8>>::derive_keypair::<_, SB<32>, SB<32>>(&b"x".to_vec(), vec![1u8; 16], Config::interactive().with_opslimit(1).with_memlimit(mem)).is_ok()));
+        let ok = r == Ok(false);
+        st.eval(&("pw-kp-reject", mem), true, if ok { "derive_keypair-rejects-out-of-range" } else { "derive_keypair-accepts-out-of-range" });
+        if !ok {
+            fail(&mut st, "derive_keypair", "accepts-out-of-range", format!("PwHash::derive_keypair accepted memlimit {}: {:?}", mem, r), json!({"kind": "pw"}));
+        }
+    }
     st.sample(json!({"what": "PwHash::derive_keypair", "passwords": 4, "algorithms": ["argon2i (config via from_string().into_parts())", "argon2id"], "cost": "t=3, m=8 KiB"}));
     ctx.absorb("password-derived", st);
     {
